@@ -301,6 +301,22 @@ def hProf : Handler := handler fun args =>
     | .error _ => pure (.list [.sym "raised"])
   | _ => none
 
+/-- `(cprof ((ev time (released…))…))` ↦ `(((key cache_time free_time)…) (live keys…))`: the CacheProfiler fold; several
+scheduler calls may follow each other -/
+def hCProf : Handler := handler fun args =>
+  match args with
+  | [evs] => do
+    let items ← evs.toList?
+    let triples ← items.mapM (fun it => match it with
+      | .list [e, t, rel] => do pure ((← decEv e), (← t.toNat?), (← rel.toNats?))
+      | _ => none)
+    let times := triples.map (·.2.1)
+    let log : List (Ev × State Int) := triples.map (fun p => (p.1, { released := p.2.2 }))
+    let p := Dask.Diag.cprofRun (fun i => times.getD i 0) 0 {} log
+    let rs := p.results.mergeSort (fun a b => a.1 < b.1 || (a.1 == b.1 && a.2.1 ≤ b.2.1))
+    pure (.list [.list (rs.map (fun r => SExp.ofNats [r.1, r.2.1, r.2.2])), SExp.ofNats (sortNat (p.live.map (·.1)))])
+  | _ => none
+
 /-- `(cache_run nodes results prio nw cs choices store)`: the run the scheduler makes after `Cache._start` patched the
 graph with `store`; ↦ `(outcome result store')` where `store'` is what `Cache._posttask` leaves (no eviction) -/
 def hCacheRun : Handler := handler fun args =>
@@ -332,6 +348,6 @@ end SchedDrv
 def table : List (String × Handler) :=
   [("run", SchedDrv.hRun), ("start_state", SchedDrv.hStart), ("finish_task", SchedDrv.hFinish),
    ("release_data", SchedDrv.hRelease), ("denote", SchedDrv.hDenote), ("nested_get", SchedDrv.hNested),
-   ("cbrun", SchedDrv.hCbRun), ("cbexec", SchedDrv.hCbExec), ("prof", SchedDrv.hProf), ("cache_run", SchedDrv.hCacheRun)]
+   ("cbrun", SchedDrv.hCbRun), ("cbexec", SchedDrv.hCbExec), ("prof", SchedDrv.hProf), ("cprof", SchedDrv.hCProf), ("cache_run", SchedDrv.hCacheRun)]
 
 def main : IO Unit := runDriver table
